@@ -1,6 +1,7 @@
 import Mieru.Proofs.C09
 import Mieru.Proofs.C08
 import Mieru.Model.SpecCrypto
+import Mieru.Gen.Consts
 /-!
 # C09 — what goes on the wire is exactly the documented protocol
 
@@ -21,6 +22,23 @@ validated, not proved (DESIGN.md §5).
 -/
 namespace Mieru.C09
 open Mieru Mieru.Spec
+
+/-! ## Constants (tie T) -/
+
+/-- The numbers the document fixes, as compiled from the current source
+    (`lean/Mieru/Gen/Consts.lean`, regenerated on every run): PBKDF2 iterations, slot length,
+    key / nonce / tag sizes, user-hint input and output sizes, metadata length, maximal session
+    payload, and the ten protocol type numbers. -/
+theorem spec_consts_match_code :
+    Mieru.Gen.keyIter = 64 ∧ Mieru.Gen.keyRefreshIntervalNs = 120 * 1000000000 ∧
+    Mieru.Gen.defaultKeyLen = 32 ∧ Mieru.Gen.defaultNonceSize = 24 ∧ Mieru.Gen.defaultOverhead = 16 ∧
+    Mieru.Gen.noncePrefixLenForUserHint = 16 ∧ Mieru.Gen.nonceSuffixLenForUserHint = 4 ∧
+    Mieru.Gen.metadataLength = 32 ∧ Mieru.Gen.maxSessionOpenPayload = 1024 ∧
+    Mieru.Gen.openSessionRequest = 2 ∧ Mieru.Gen.openSessionResponse = 3 ∧
+    Mieru.Gen.closeSessionRequest = 4 ∧ Mieru.Gen.closeSessionResponse = 5 ∧
+    Mieru.Gen.dataClientToServer = 6 ∧ Mieru.Gen.dataServerToClient = 7 ∧
+    Mieru.Gen.ackClientToServer = 8 ∧ Mieru.Gen.ackServerToClient = 9 ∧
+    Mieru.Gen.dataClientToServerLowEntropy = 10 ∧ Mieru.Gen.dataServerToClientLowEntropy = 11 := by decide
 
 /-! ## Metadata -/
 
